@@ -114,27 +114,25 @@ Qed.
 (* ------------------------------------------------------------------ witnesses *)
 (** echo a{1..3}b : the text around the range is dropped *)
 Lemma range_drops_affixes :
-  expand_brace_range true [(TNone, s2l "echo"); (TNone, s2l "a{1..3}b")]
+  expand_brace_range [(TNone, s2l "echo"); (TNone, s2l "a{1..3}b")]
   = Ok [(TNone, s2l "echo"); (TNone, s2l "1"); (TNone, s2l "2"); (TNone, s2l "3")].
 Proof. vm_compute. reflexivity. Qed.
 
-(** echo {2147483646..2147483647} : i32 overflow -- a panic with overflow checks, no end without *)
-Lemma range_overflow_panics :
-  expand_brace_range true [(TNone, s2l "{2147483646..2147483647}")] = Panic site_range_overflow.
-Proof. vm_compute. reflexivity. Qed.
-Lemma range_overflow_wraps :
-  expand_brace_range false [(TNone, s2l "{2147483646..2147483647}")] = OutOfFuel.
+(** echo {2147483646..2147483647} : since 3746800 the loop stops at the i32 limit (regression example) *)
+Lemma range_at_i32_max :
+  expand_brace_range [(TNone, s2l "{2147483646..2147483647}")]
+  = Ok [(TNone, s2l "2147483646"); (TNone, s2l "2147483647")].
 Proof. vm_compute. reflexivity. Qed.
 
 (** echo {1..2} {1..99999999999} : one operand out of range leaves EVERY range of the line unexpanded *)
 Lemma range_abort_drops_all :
-  expand_brace_range true [(TNone, s2l "{1..2}"); (TNone, s2l "{1..99999999999}")]
+  expand_brace_range [(TNone, s2l "{1..2}"); (TNone, s2l "{1..99999999999}")]
   = Ok [(TNone, s2l "{1..2}"); (TNone, s2l "{1..99999999999}")].
 Proof. vm_compute. reflexivity. Qed.
 
-(** echo {a}{b,c} : a group without a comma does not consume its closing brace *)
+(** echo {a}{b,c} : since 4f56aed a group without a comma keeps its braces and consumes the closing one *)
 Lemma single_alternative_group :
-  brace_getitem (s2l "{a}{b,c}") 0 = Ok ([s2l "{a}}b"; s2l "{a}}c"], []).
+  brace_getitem (s2l "{a}{b,c}") 0 = Ok ([s2l "{a}b"; s2l "{a}c"], []).
 Proof. vm_compute. reflexivity. Qed.
 
 (** HOME=/h$tail ; echo ~/x : the home directory is used as a replacement template *)
